@@ -4,7 +4,8 @@ how many cases per tier, what is assumed.  (DESIGN.md §6)"""
 PROPS = {
     "C14": {
         "lean_module": "LispModel.Props.C14",
-        "engines": [{"name": "eq", "quick": 20000, "thorough": 400000}],
+        "engines": [{"name": "eq", "quick": 20000, "thorough": 400000},
+                    {"name": "eqexpr", "quick": 1, "thorough": 1, "deterministic": True}],
         "technique": "Lean 4 theorem (equalQ = structural equality, equivalence) + differential correspondence with types.Equal_Q",
         "level_text": "Kernel-checked theorems: the Lean mirror of Equal_Q coincides with structural equality SEq on all data values of "
                       "any nesting and SEq is an equivalence; the mirror is tied to the Go code by running `=` in the real interpreter "
@@ -113,7 +114,7 @@ PROPS["C07"] = {
     "violation_if": {"cancel": r"^HANG"},
     "lean_module": "LispModel.Props.C07",
     "engines": [{"name": "cancel", "quick": 2500, "thorough": 40000},
-                {"name": "cancelwall", "quick": 42, "thorough": 420}],
+                {"name": "cancelwall", "quick": 78, "thorough": 520}],
     "technique": "Lean 4 theorems about the poll structure of the evaluator model (every loop iteration polls first) + poll-counting context correspondence",
     "level_text": "PARTIAL: the logic is proved in poll ticks (after the cancelling poll every evaluation step returns the timeout error at once, no effect "
                   "is appended, the number of further polls is bounded by the try nesting); the tie runs real EVAL under a context whose Done() closes at the "
@@ -152,7 +153,8 @@ PROPS["C13"] = {
 }
 PROPS["C18"] = {
     "lean_module": "LispModel.Props.C18",
-    "engines": [{"name": "step", "quick": 4000, "thorough": 60000}],
+    "engines": [{"name": "step", "quick": 4000, "thorough": 60000},
+                {"name": "steplong", "quick": 1, "thorough": 1, "deterministic": True}],
     "technique": "Lean 4 simulation theorem (evaluator with scripted Stepper vs without) + differential correspondence incl. the exact sequence of forms shown to the callback",
     "level_text": "Theorem: for every command script the evaluator model with a Stepper returns the same result, trace and store as without; tie: programs "
                   "with special forms, closures, macros, try/catch/finally under random scripts, compared with the run without Stepper and with the model "
